@@ -202,8 +202,10 @@ Definition C02_commit (g : cfg) (sg : seg) (sn : snap) : bool :=
    end) &&
   (* (c) larger than every id that existed before *)
   forallb (fun T => forallb (fun o => o <? T) (sn_tx (sg_before sg))) ntx &&
-  (* (d) nothing versioned changed and no manual creation: no record *)
-  (sg_modified sg || sg_manual sg || match ntx with [] => true | _ => false end) &&
+  (* (d) nothing versioned changed - neither as seen before the flush nor by the flush itself (cascades) -
+     and no manual creation: no record *)
+  (sg_modified sg || sg_manual sg || match sg_allowed sg with [] => false | _ => true end ||
+   match ntx with [] => true | _ => false end) &&
   (* (e) no dangling reference *)
   no_dangling sn.
 
@@ -302,7 +304,8 @@ Definition C13_commit (r_blind : bool) (g : cfg) (sg : seg) (sn : snap) : bool :
   forallb (fun r => mem_ent (sg_allowed sg) (tab_cls (vkey r), tl (vkey r)) ||
                     (r_blind && mem_ent (sg_blind sg) (tab_cls (vkey r), tl (vkey r)))) (new_rows sg sn) &&
   (* no transaction record unless something versioned (exclusion as configured) changed *)
-  (sg_modified sg || sg_manual sg || match new_txs sg sn with [] => true | _ => false end) &&
+  (sg_modified sg || sg_manual sg || match sg_allowed sg with [] => false | _ => true end ||
+   match new_txs sg sn with [] => true | _ => false end) &&
   (* stored data has exactly one value per non-excluded non-key column *)
   forallb (fun r => (length (vdat r) =? length (filter (fun b => b) (dat_flags (cls_of g (tab_cls (vkey r))))))%nat)
           (sn_vt sn).
